@@ -3,6 +3,7 @@ import FractopoModel.Generated.ParamTable
 import FractopoModel.Generated.AggregateDispatch
 import FractopoModel.Generated.RandomRadius
 import FractopoModel.Generated.Subsampling
+import FractopoModel.Generated.RandomSample
 /-!
 # C20 — subsampling keeps every sample, aggregates as declared, samples inside target
 -/
@@ -302,5 +303,22 @@ theorem C20_circle_inside (R r d1 d2 d : Rat) (hr : r ≤ R) (h1 : d1 ≤ Gen.ce
   unfold Gen.centre_buffer_radius at h1; grind
 
 example : (0 : Rat) ≤ 1/2 ∧ (1/2 : Rat) < 1 ∧ Gen.random_radius 1 3 (1/2) = 2 := by decide +kernel
+
+/-- **A sample's network is built from the WHOLE source frame and the random circle (regenerated `random_network_sample`).** Whatever the circle, the frame and
+the constructor: the sample holds `Network(source traces, one-row area of the circle — carrying the source CRS when there is one —, truncation on, circular area on)`,
+`None` exactly when that constructor raised ValueError; centre and radius are those of the drawn circle, the name the sampler's. No pre-selection of traces, no other
+area, no other flags (with truncation on, `C14_generated_network_route` / `C07_generated_crop` say the network's traces are the crop of that frame to that circle). -/
+theorem C20_generated_sample {C P Ar Crs N F : Type} (traces : F) (crs : Option Crs) (name : String) (t : Rat) (circle : C × P × Rat)
+    (area_frame : C → Ar) (set_crs : Ar → Option Crs → Ar) (network_ : F → Ar → String → Bool → Rat → Bool → Bool → Option N) (det : Bool) :
+    Gen.random_network_sample traces crs name t circle area_frame set_crs network_ det
+      = (network_ traces (match crs with | none => area_frame circle.1 | some _ => set_crs (area_frame circle.1) crs) name det t true true,
+         circle.2.1, circle.2.2, name) := by
+  obtain ⟨c, p, r⟩ := circle
+  cases crs <;> rfl
+
+/-- non-vacuity: a constructor that records what it was given -/
+example : Gen.random_network_sample ([1, 2, 3] : List Nat) (some "EPSG:3067") "s" (1/1000) ("circle", (0 : Int), (5 : Rat)) (fun c => (c, "")) (fun a k => (a.1, k.getD ""))
+    (fun f a n d t circ trunc => if trunc && circ then some (f, a, n, d, t) else none) true
+    = (some ([1, 2, 3], ("circle", "EPSG:3067"), "s", true, 1/1000), 0, 5, "s") := by rfl
 
 end C20
